@@ -125,9 +125,9 @@ GEN_FAMILIES = {
     "C05": [(("collect_vec", "count", "find"), ("iterx", "vec"), (2, 3), "Cs_1_2", "Fans_find", 3, 3)],
     "C06": [(("collect_vec",), ("vec", "iterx"), (2,), "Cs_1_2", "Fans_012", 3, 2)],
     "C07": [(("collect_x",), ("vec",), (3,), "Cs_2", "Fans_012", 4, 3), (("collect_x",), ("iterx",), (2,), "Cs_1_2", "Fans_012", 3, 2)],
-    "C08": [(("count", "find"), ("vec",), (2, 3), "Cs_1_2", "Fans_find", 4, 3)],
+    "C08": [(("count", "find"), ("vec",), (2, 3), "Cs_1_2", "Fans_find", 4, 3), (("count",), ("vec",), (6,), "Cs_1_2", "Fans_1", 7, 6)],
     "C10": [(("find",), ("vec", "iterx"), (2, 3), "Cs_1_2", "Fans_find", 4, 3)],
-    "C11": [(("collect_vec", "count"), ("vec", "iterx"), (3,), "Cs_1_2_3", "Fans_012", 4, 3)],
+    "C11": [(("collect_vec", "count"), ("vec", "iterx"), (3,), "Cs_1_2_3", "Fans_012", 4, 3), (("count",), ("vec",), (6,), "Cs_1_2", "Fans_1", 7, 6)],
     "C13": [(("collect_vec", "find"), ("vec",), (2, 3), "Cs_1_2", "Fans_find", 3, 3)],
     "C15": [(("collect_vec", "count"), ("vec",), (2, 3), "Cs_min_auto", "Fans_012", 4, 3)],
     "C14": [(("collect_vec", "count", "find"), ("vec", "iterx"), (2, 3), "Cs_1_2", "Fans_012", 4, 3, "CrashStage1")],
@@ -209,7 +209,7 @@ def api_jobs(prop, tier, seed, work):
         nst = sum(1 for o in ops if o["k"] in KIND.values())
         src = rng.choice(("vec", "iterx") if nst == 3 else ("vec", "iterx", "iter", "slice", "range"))
         full = []
-        if src in ("slice", "range"):
+        if src in HIDDEN_CONV:
             full.append({"k": "map", "t": list(range(V)), "h": 1})
         big = False
         for o in ops:
